@@ -4,23 +4,29 @@ import GoRedisModel.Model.ParserImpl
 Built as the core-only executable `modeldriver`; the definitions it runs are the ones the theorems are about. -/
 open GoRedis
 
-def showPRes (total : Nat) : PRes → String
-  | .ok m rest => s!"ok {showMsg m} consumed={total - rest.length}"
-  | .eof => "eof"
-  | .err => "err"
-  | .fuel => "fuel"
-
-/-- run the chunked parser to the end of the stream, printing each value with the bytes it consumed -/
-def runChunks : Nat → Nat → Reader → List String → List String
-  | 0, _, _, acc => (acc.reverse ++ ["fuel"])
-  | k+1, f, r, acc =>
-    let before := r.rest.length
+/-- run the chunked parser to the end of the stream: "v <tree> ; v <tree> ; eof|err|panic|limit" -/
+def runChunks : Nat → Nat → Nat → Reader → List String → List String
+  | 0, _, _, _, acc => (acc.reverse ++ ["fuel"])
+  | _, 0, _, _, acc => (acc.reverse ++ ["limit"])
+  | k+1, lim+1, f, r, acc =>
     match inext f r with
-    | .ok m r' => runChunks k f r' (s!"v {showMsg m} consumed={before - r'.rest.length}" :: acc)
+    | .ok m r' =>
+      if lim = 0 then (s!"v {showMsg m}" :: acc).reverse ++ ["limit"]
+      else runChunks k lim f r' (s!"v {showMsg m}" :: acc)
     | .eof => acc.reverse ++ ["eof"]
     | .err => acc.reverse ++ ["err"]
     | .panic => acc.reverse ++ ["panic"]
     | .fuel => acc.reverse ++ ["fuel"]
+
+def streamOutcome (chunks : List Bytes) (maxValues : Nat) : String :=
+  let r : Reader := ⟨chunks⟩
+  let n := r.rest.length
+  String.intercalate " ; " (runChunks (n + 2) maxValues (n + 1) r [])
+
+def afterBar : List String → List String
+  | [] => []
+  | "|" :: ts => ts
+  | _ :: ts => afterBar ts
 
 def handleLine (toks : List String) : String :=
   match toks with
@@ -36,20 +42,14 @@ def handleLine (toks : List String) : String :=
       match encGo m with
       | none => "panic"
       | some b =>
-        let back := parse (b.length + 1) b
-        let re := match back with
+        let back := streamOutcome [b ++ b!":7\r\n"] 4
+        let re := match parse (b.length + 1) b with
           | .ok m' _ => (match encGo m' with | some b' => hex b' | none => "panic")
           | _ => "none"
-        s!"enc={hex b} back={showPRes b.length back} reenc={re}"
+        s!"enc={hex b} back={back} reenc={re}"
     | none => "bad-case"
-  | ["parse", h] =>
-    let b := unhex h
-    showPRes b.length (parse (b.length + 1) b)
-  | "parsechunks" :: hs =>
-    let chunks := hs.map unhex
-    let r : Reader := ⟨chunks⟩
-    let n := r.rest.length
-    String.intercalate " ; " (runChunks (n + 2) (n + 1) r [])
+  | "chunks" :: ts => streamOutcome ((afterBar ts).map unhex) 1048576
+  | "hostile" :: hs => streamOutcome (hs.map unhex) 1048576
   | ["ctor", "int", n] =>
     match n.toInt? with
     | some i =>
